@@ -174,9 +174,12 @@ struct ApplyMagnitudeImpl<Mag, ApplyAs::RATIONAL_MULTIPLY, T, true> {
     }
 
     static constexpr bool would_truncate(const T &x) {
-        constexpr auto mag_value_result = get_value_result<T>(denominator(Mag{}));
-        return TruncationChecker<T, mag_value_result.outcome == MagRepresentationOutcome::OK>::
-            would_truncate(x, mag_value_result.value);
+        // Check divisibility in the promoted type, because that is where `operator()` divides: the
+        // denominator may fit in `PromotedType<T>` without fitting in `T` (e.g., 128 for `int8_t`).
+        using P = PromotedType<T>;
+        constexpr auto mag_value_result = get_value_result<P>(denominator(Mag{}));
+        return TruncationChecker<P, mag_value_result.outcome == MagRepresentationOutcome::OK>::
+            would_truncate(static_cast<P>(x), mag_value_result.value);
     }
 };
 
